@@ -154,7 +154,7 @@ var (
 )
 
 func readRequest(r *http.Request, ctx *martian.Context) tr.Req {
-	return tr.Req{Method: r.Method, Scheme: r.URL.Scheme, Host: r.URL.Host, Path: r.URL.Path, Wire: r.URL.RawPath, Query: r.URL.RawQuery,
+	return tr.Req{Method: r.Method, Scheme: r.URL.Scheme, Host: r.URL.Host, Path: r.URL.Path, Query: r.URL.RawQuery,
 		HostH: r.Host, Header: map[string][]string(cloneH(r.Header)), CL: r.ContentLength, Skip: ctx.SkippingRoundTrip()}
 }
 
@@ -183,6 +183,7 @@ func js(v interface{}) string {
 
 func normReq(r *tr.Req) tr.Req {
 	c := *r.Clone()
+	c.Wire = "" // the spelling on the request line is input, not part of what is compared
 	return c
 }
 
